@@ -525,3 +525,61 @@ def rules_assoc(rep, db, inline):
         if not why and rows != {True, False}:
             why = "in range / out of range are not both possible"
         (rep.fail if why else rep.ok)("ASSOC", key, F.primary_site(fn), F.describe(fn)[:160], **({"why": why} if why else {"how": "table"}))
+
+
+def rules_join(rep, db, inline):
+    rep.rule("JOIN", "container::join inserts [begin, end) of every further argument, in argument order, at the end of the first container (or into the "
+                     "associative container) and returns it", floor=10)
+    cfg = sx.Config(inline_prefixes=tuple(inline) + ("fcppt::range::", "fcppt::container::", "fcppt::move_iterator_if_rvalue"), loop_bound=2, lvalues=True, iter_positions=True)
+    seen = set()
+    for fn in db.fns("fcppt::container::join"):
+        k_ = tuple(fn.get("targs") or [])
+        if k_ in seen or len(fn["params"]) < 2:
+            continue
+        seen.add(k_)
+        key = "join<%s>" % ", ".join(x.replace("std::", "") for x in k_)[:100]
+        names = [p["name"] for p in fn["params"]]
+        try:
+            ps = sx.Interp(db, cfg).paths(fn, limit=20)
+        except sx.Unsupported as e:
+            rep.broken("C16 JOIN %s: %s" % (key, e))
+            continue
+        why = None
+        if len(ps) != 1 or ps[0].outcome[0] != "return":
+            why = "%d paths" % len(ps)
+        else:
+            ev = shown(ps[0])
+            if sx.show(ps[0].outcome[1]) != names[0]:
+                why = "the result is %s, not the first container" % sx.show(ps[0].outcome[1])
+
+            def origin(x):
+                """('begin'|'end', container) behind an iterator term, through make_move_iterator"""
+                for _ in range(4):
+                    m = re.match(r"^#(\d+):(\w+)$", unwrap_iter(x))
+                    if not m:
+                        return None
+                    n_, a_ = ev[int(m.group(1)) - 1]
+                    short = n_.split("::")[-1]
+                    if short == "make_move_iterator":
+                        x = a_[0]
+                        continue
+                    return (short.lstrip("c"), a_[0] if a_ else None)
+                return None
+            ins = [(n, a) for n, a in ev if n.split("::")[-1] == "insert"]
+            got = []
+            for n, a in ins:
+                if a[0] != names[0]:
+                    why = "an insertion into %s" % a[0]
+                    break
+                rng = a[-2:]
+                o = [origin(x) for x in rng]
+                if o[0] is None or o[1] is None or o[0][0] != "begin" or o[1][0] != "end" or o[0][1] != o[1][1]:
+                    why = "a range that is not [begin, end) of one argument: %s" % rng
+                    break
+                if len(a) == 4 and origin(a[1]) != ("end", names[0]):
+                    why = "the elements are not inserted at the end of the first container"
+                    break
+                got.append(o[0][1])
+            if not why and got != names[1:]:
+                why = "the arguments are inserted in the order %s, expected %s" % (got, names[1:])
+        (rep.fail if why else rep.ok)("JOIN", key, F.primary_site(fn), F.describe(fn)[:160], **({"why": why} if why else {"how": "%d ranges" % (len(names) - 1)}))
